@@ -368,3 +368,8 @@ Definition grow_data_end (oldMax newMax dataEnd metaEnd : Z) : Z :=
   if (0 <? oldMax) && (oldMax <? metaEnd) && ((newMax =? 0) || (oldMax <? newMax))
   then Z.max dataEnd (if (0 <? newMax) && (newMax <? metaEnd) then newMax else metaEnd)
   else dataEnd.
+
+(* alloc.go readAllocatorState: the number of pages of a bounded file = the COMPLETE pages below the maximum size
+   (0: unbounded); max_pages_ceil is the rounding of seeded change C11j (as computeMmapSize rounds) *)
+Definition max_pages_of (maxSize pageSize : Z) : Z := if 0 <? maxSize then maxSize / pageSize else 0.
+Definition max_pages_ceil (maxSize pageSize : Z) : Z := if 0 <? maxSize then (maxSize + pageSize - 1) / pageSize else 0.
